@@ -24,6 +24,11 @@ Definition is_straight (ws : list N) : bool :=
   || (rank_bits =? FIVE_WHEEL_OR_BITS).
 Definition is_straight_flush (ws : list N) : bool := is_straight ws && is_flush ws.
 
+(* deprecated free functions evaluate::is_flush / evaluate::or_rank_bits (src/lib.rs): the same AND
+   chain masked with SUIT_FILTER, resp. a delegation to Five::or_rank_bits *)
+Definition evaluate_is_flush (ws : list N) : bool := negb (N.land (and_bits ws) CN_SUIT_FILTER =? 0).
+Definition evaluate_or_rank_bits (ws : list N) : N := or_rank_bits ws.
+
 (* u32 product of the five prime fields, left to right *)
 Definition multiply_primes (chk : bool) (ws : list N) : res N :=
   match map get_rank_prime ws with
